@@ -1,6 +1,9 @@
 CONSTANTS
   MaxOps = 4
   OracleN = 7
+  Starts = {"k4", "k5", "k33"}
+  GlueK5 = TRUE
+  Randomised = FALSE
 INIT Init
 NEXT Next
 INVARIANTS EulerBound FacesAreTriangles OracleAgrees
